@@ -486,6 +486,8 @@ class Fn:
             return self.block(rest, env, rtype)
         if isinstance(s, ast.Pass):
             return self.block(rest, env, rtype)
+        if self.is_logging(s):      # [C13] spec option "ignore_logging"
+            return self.block(rest, env, rtype)
         if isinstance(s, ast.Return):
             if s.value is None:
                 _fail(s, "bare return")
@@ -540,9 +542,17 @@ class Fn:
                                                       self.block(s.orelse, env, rtype))
             vs = self.live_assigned(s, env)
             if not vs:
+                if self.spec.get("ignore_logging") and self.no_exit(s):
+                    # [C13] only logging / branch-local names inside: no effect on what follows (a later use of a
+                    # branch-local name is still rejected as an unknown name)
+                    return self.block(rest, env, rtype)
                 _fail(s, "if without effect")
             a_txt, a_types = self.branch(s.body, env, vs, s)
             b_txt, b_types = self.branch(s.orelse, env, vs, s)
+            if a_types != b_types and self.spec.get("join_int_float"):     # [C13] int on one path, float on the other
+                want = self.join_types(s, a_types, b_types)
+                a_txt, a_types = self.branch(s.body, env, vs, s, want)
+                b_txt, b_types = self.branch(s.orelse, env, vs, s, want)
             if a_types != b_types:
                 _fail(s, "branches give different types %s / %s" % (a_types, b_types))
             env2 = dict(env)
@@ -556,7 +566,32 @@ class Fn:
                                                                 self.block(rest, env2, rtype))
         _fail(s, "statement %s" % type(s).__name__)
 
-    def branch(self, stmts, env, vs, node):
+    # [C13] ----- spec options "ignore_logging" / "join_int_float" (both off by default)
+    def is_logging(self, s):
+        if not self.spec.get("ignore_logging"):
+            return False
+        return isinstance(s, ast.Expr) and isinstance(s.value, ast.Call) and isinstance(s.value.func, ast.Attribute) \
+            and isinstance(s.value.func.value, ast.Name) and s.value.func.value.id in ("logging", "logger", "LOG") \
+            and s.value.func.attr in ("debug", "info", "warning", "error")
+
+    def no_exit(self, s):
+        """No return / raise anywhere inside statement s."""
+        return not any(isinstance(n, (ast.Return, ast.Raise)) for n in ast.walk(s))
+
+    def join_types(self, node, a_types, b_types):
+        if len(a_types) != len(b_types):
+            _fail(node, "branches assign different variables")
+        out = []
+        for x, y in zip(a_types, b_types):
+            if x == y:
+                out.append(x)
+            elif {x, y} == {'Z', 'F'}:
+                out.append('F')
+            else:
+                _fail(node, "branches give different types %s / %s" % (a_types, b_types))
+        return out
+
+    def branch(self, stmts, env, vs, node, want=None):
         """A fall-through branch as a tuple-valued expression over variables vs."""
         env2 = dict(env)
         lets = []
@@ -564,6 +599,8 @@ class Fn:
         while todo:
             s = todo.pop(0)
             if isinstance(s, ast.Pass) or (isinstance(s, ast.Expr) and isinstance(s.value, ast.Constant)):
+                continue
+            if self.is_logging(s):      # [C13]
                 continue
             if isinstance(s, ast.If) and self.static_cond(s.test, env2) is not None:   # [C14] live branch only
                 todo = list(s.body if self.static_cond(s.test, env2) else s.orelse) + todo
@@ -583,6 +620,10 @@ class Fn:
                 ivs = self.live_assigned(s, env2)
                 a_txt, a_t = self.branch(s.body, env2, ivs, s)
                 b_txt, b_t = self.branch(s.orelse, env2, ivs, s)
+                if a_t != b_t and self.spec.get("join_int_float"):     # [C13]
+                    jt = self.join_types(s, a_t, b_t)
+                    a_txt, a_t = self.branch(s.body, env2, ivs, s, jt)
+                    b_txt, b_t = self.branch(s.orelse, env2, ivs, s, jt)
                 if a_t != b_t:
                     _fail(s, "nested branches give different types")
                 pats = []
@@ -598,6 +639,10 @@ class Fn:
         for v in vs:
             if v not in env2:
                 _fail(node, "variable %s not defined on every path" % v)
+            if want is not None and env2[v][1] != want[len(vals)]:      # [C13] promote to the joined type
+                vals.append(self.promote(node, env2[v], want[len(vals)]))
+                types.append(want[len(types)])
+                continue
             vals.append(env2[v][0])
             types.append(env2[v][1])
         tup = vals[0] if len(vals) == 1 else "(" + ", ".join(vals) + ")"
